@@ -476,15 +476,28 @@ def make_component(prog, idx: int, tag: str, log: Optional[list] = None, extra: 
         attrs["js"] = a["js"] if a["js"] != "" else " "
     if a["css"] != "" or a["base"]:
         attrs["css"] = a["css"] if a["css"] != "" else " "
-    if a["mjs"] or a["mcss"] or not a["ext"] or a.get("media_always"):
+    # optional fields (C04): extl = Media.extend in its list form (indices of classes defined earlier);
+    # mform = how a Media class WITHOUT own files is spelled: "absent" (no Media class at all; default),
+    # "bare" (`class Media: pass`), "explicit" (`extend = True` only), "emptylists" (`js = []`, `css = {}`)
+    extl = a.get("extl")
+    mform = a.get("mform") or "absent"
+    if a["mjs"] or a["mcss"] or not a["ext"] or a.get("media_always") or extl is not None or mform != "absent":
         css = a["mcss"]
         if a.get("cssdict"):
             css = {"all": a["mcss"][:1], "print": a["mcss"][1:]} if a["mcss"] else {}
         md: Dict[str, Any] = {"extend": a["ext"]}
+        if extl is not None:
+            md["extend"] = [prog["_classes"][k - 1] for k in extl]
+        elif mform in ("bare", "emptylists") and a["ext"]:
+            del md["extend"]                 # `extend` defaults to True
         if a["mjs"]:
             md["js"] = list(a["mjs"])
+        elif mform == "emptylists":
+            md["js"] = []
         if css:
             md["css"] = css
+        elif mform == "emptylists":
+            md["css"] = {}
         attrs["Media"] = type("Media", (), md)
     hook = spec.get("hook")
     if hook:
